@@ -22,6 +22,7 @@ def run(prog, chk):
     chk.defer(_run, prog, chk)
     chk.defer(final_result_writers, prog, chk)
     chk.defer(wrapper_verdict, prog, chk)
+    chk.defer(result_copy_table, prog, chk)
 
 
 def _run(prog, chk):
@@ -504,3 +505,51 @@ def final_result_writers(prog, chk):
                        loc=fn.loc(fn.elem_line(b, i)), fn=fn)
     if nstores < 2 or ncalls < 4:
         raise AnalysisBroken("C05.final: only %d stores / %d address uses of finalResult found" % (nstores, ncalls))
+
+
+def result_copy_table(prog, chk):
+    """What the lists of rule / policy results hold are copies made by KSI_RuleVerificationResult_dup.  "The reported result is that of
+    the last rule evaluated" extends to the records only if a copy says what its source said: evaluated for a verdict of each kind, with
+    and without an error status left in the (never reset) status field - the copy has the source's verdict, error code, rule and policy
+    name, step counters, status and extended status, and a message of its own."""
+    from ksirules.interp import succeed_model, inline_model, unit_helpers, write_out
+    chk.rule("C05.copy", "the recorded copy of a rule result says what the result said (verdict, error code, names, steps, status), whatever "
+                         "status an earlier inconclusive rule left behind (value table)", floor=6)
+    fn = prog.fn("KSI_RuleVerificationResult_dup", "policy.c")
+    sp, dp = [p["n"] for p in fn.params]
+    K = prog.const
+    fields = ("resultCode", "errorCode", "ruleName", "policyName", "stepsPerformed", "stepsSuccessful", "stepsFailed", "status", "statusExt")
+    for vname, verdict, err in (("OK", K("KSI_VER_RES_OK"), K("KSI_VER_ERR_NONE")), ("NA", K("KSI_VER_RES_NA"), K("KSI_VER_ERR_GEN_2")),
+                                ("FAIL", K("KSI_VER_RES_FAIL"), K("KSI_VER_ERR_INT_1"))):
+        for status, msg in ((0, 0), (0x202, Ptr("MSG"))):
+            src = {"resultCode": verdict, "errorCode": err, "ruleName": Ptr("RULENAME"), "policyName": Ptr("POLICYNAME"), "stepsPerformed": 7, "stepsSuccessful": 5,
+                   "stepsFailed": 2, "status": status, "statusExt": 9 if status else 0}
+            dups = []
+
+            def strdup_(I, p, node, args):
+                dups.append(args[0])
+                return 0 if write_out(I, p, node, 1, args, Ptr("MSGCOPY")) else TOP
+            ov = {"KSI_malloc": lambda I, p, n, a: Ptr("NEW"), "KSI_calloc": lambda I, p, n, a: Ptr("NEW"), "KSI_strdup": strdup_,
+                  "KSI_free": lambda I, p, n, a: TOP, "KSI_RuleVerificationResult_free": lambda I, p, n, a: TOP}
+            inputs = {sp: Ptr("SRC"), dp: Ptr("OUT"), "SRC->statusMessage": msg}
+            for f, v in src.items():
+                inputs["SRC->" + f] = v
+                inputs["NEW->" + f] = 0
+            inputs["NEW->statusMessage"] = 0
+            hs = unit_helpers(prog, fn) - set(ov)
+            I = Interp(fn, inputs=inputs, call_model=inline_model(prog, hs, fallback=succeed_model(prog, ov)) if hs else succeed_model(prog, ov), on_unknown="stop", prog=prog)
+            paths = I.run()
+            chk.paths += len(paths)
+            inst = "RuleVerificationResult_dup[verdict %s, status %s]" % (vname, "KSI_OK" if not status else hex(status))
+            if len(paths) != 1 or paths[0].undetermined:
+                raise AnalysisBroken("%s: evaluation not determined: %s" % (inst, [q.undetermined[:1] for q in paths]))
+            q = paths[0]
+            out = [t[2] for t in q.stores("*" + dp)] + [t[2] for t in q.stores("OUT")]
+            obj = out[-1].what if out and isinstance(out[-1], Ptr) else None
+            # a whole-struct copy (*tmp = *src) is seen as the copy of every field
+            got = {f: I.read(q, "%s->%s" % (obj, f)) for f in fields} if obj else {}
+            gm = I.read(q, obj + "->statusMessage") if obj else None
+            okm = (gm == 0 and not msg) or (msg and gm == Ptr("MSGCOPY") and dups == [Ptr("MSG")])
+            chk.ob("C05.copy", inst, q.ret == 0 and got == src and okm,
+                   "expected a copy with %s and %s; source: status %s, copy %s, message %s" % (src, "no message" if not msg else "a message of its own", q.ret, got, gm),
+                   loc=fn.loc(), fn=fn, nontrivial=bool(status))
